@@ -76,6 +76,7 @@ def evOf (s : String) : Option Ev :=
   match s.toList with
   | ['i'] => some .intr
   | ['f'] => some .fail
+  | ['f', _] => some .fail      -- `f<kind>`: a hard failure of some io::ErrorKind; every kind is final
   | 'c' :: rest => (unhexL rest).map .chunk
   | _ => none
 
